@@ -87,6 +87,16 @@ def solveLoop (eps : α) : Nat → SolveSt α → SolveSt α
     let st' := solveBody eps st
     if st'.stop = .running then solveLoop eps fuel st' else st'
 
+/-- the same loop with a re-tabulation `norm` of the state after every pass: what the native driver runs
+(`norm` = rebuild the vectors as arrays, the identity on the valid index ranges); `solveLoopWith id = solveLoop`
+(`solveLoopWith_id`, Lemmas/McSolve.lean) -/
+def solveLoopWith (norm : McBox α → McBox α) (eps : α) : Nat → SolveSt α → SolveSt α
+  | 0, st => { st with stop := .maxIter }
+  | fuel + 1, st =>
+    let st' := solveBody eps st
+    let st' := { st' with s := norm st'.s }
+    if st'.stop = .running then solveLoopWith norm eps fuel st' else st'
+
 /-- `QpSolver<QpMcBoxDecomp>(problem).solve(stop, &prop)` with `stop.minAccuracy = eps`,
 `stop.maxIterations = maxIter` -/
 def solve (s : McBox α) (eps : α) (maxIter : Nat) : SolveSt α :=
